@@ -70,6 +70,28 @@ pub fn run(l: &[i128]) -> Vec<i128> {
                 Err(_) => vec![-1],
             }
         }
+        Some(10) if l.len() >= 5 => {
+            // an 8-bit file of colour type ct written by hand (stored deflate blocks, own CRC / Adler), Adam7-interlaced when
+            // l[4] != 0 (the encoder dependency cannot write interlaced files): same pixels as the non-interlaced file
+            let ct = l[1] as u8;
+            let ch = match ct { 0 => 1, 2 => 3, 4 => 2, _ => 4 } as usize;
+            let (w, h) = (l[2] as usize, l[3] as usize);
+            let interlaced = l[4] != 0;
+            let data: Vec<u8> = l[5..].iter().map(|x| *x as u8).collect();
+            if w == 0 || h == 0 || data.len() != w * h * ch {
+                return vec![-3];
+            }
+            let file = handmade_png(ct, ch, w, h, interlaced, &data);
+            match Pixmap::decode_png(&file) {
+                Ok(p) => {
+                    if p.width() as usize != w || p.height() as usize != h {
+                        return vec![-4];
+                    }
+                    px_out(&p)
+                }
+                Err(_) => vec![-1],
+            }
+        }
         Some(9) if l.len() >= 5 => {
             // an 8-bit grey (ct 0) or RGB (ct 2) file with a tRNS colour key: the keyed colour is fully transparent
             let ct = if l[1] == 0 { png::ColorType::Grayscale } else { png::ColorType::Rgb };
@@ -131,4 +153,83 @@ pub fn run(l: &[i128]) -> Vec<i128> {
         }
         _ => vec![-3],
     }
+}
+
+
+fn crc32(data: &[u8]) -> u32 {
+    let mut c = 0xFFFF_FFFFu32;
+    for b in data {
+        c ^= *b as u32;
+        for _ in 0..8 {
+            c = if c & 1 != 0 { 0xEDB8_8320 ^ (c >> 1) } else { c >> 1 };
+        }
+    }
+    !c
+}
+
+fn adler32(data: &[u8]) -> u32 {
+    let (mut a, mut b) = (1u32, 0u32);
+    for d in data {
+        a = (a + *d as u32) % 65521;
+        b = (b + a) % 65521;
+    }
+    (b << 16) | a
+}
+
+fn chunk(out: &mut Vec<u8>, kind: &[u8; 4], body: &[u8]) {
+    out.extend_from_slice(&(body.len() as u32).to_be_bytes());
+    let mut c = kind.to_vec();
+    c.extend_from_slice(body);
+    out.extend_from_slice(&c);
+    out.extend_from_slice(&crc32(&c).to_be_bytes());
+}
+
+/// An 8-bit PNG built without the encoder dependency; filter type 0 on every scanline, stored (uncompressed) deflate blocks.
+fn handmade_png(ct: u8, ch: usize, w: usize, h: usize, interlaced: bool, data: &[u8]) -> Vec<u8> {
+    let mut raw = Vec::new();
+    if interlaced {
+        // Adam7: (x start, y start, x step, y step) of the seven passes
+        let passes = [(0, 0, 8, 8), (4, 0, 8, 8), (0, 4, 4, 8), (2, 0, 4, 4), (0, 2, 2, 4), (1, 0, 2, 2), (0, 1, 1, 2)];
+        for (x0, y0, dx, dy) in passes {
+            if x0 >= w || y0 >= h {
+                continue;
+            }
+            let mut y = y0;
+            while y < h {
+                raw.push(0u8);
+                let mut x = x0;
+                while x < w {
+                    raw.extend_from_slice(&data[(y * w + x) * ch..(y * w + x + 1) * ch]);
+                    x += dx;
+                }
+                y += dy;
+            }
+        }
+    } else {
+        for y in 0..h {
+            raw.push(0u8);
+            raw.extend_from_slice(&data[y * w * ch..(y + 1) * w * ch]);
+        }
+    }
+    let mut z = vec![0x78u8, 0x01];
+    let mut blocks = raw.chunks(60000).peekable();
+    if raw.is_empty() {
+        z.extend_from_slice(&[1, 0, 0, 0xFF, 0xFF]);
+    }
+    while let Some(b) = blocks.next() {
+        z.push(if blocks.peek().is_none() { 1 } else { 0 });
+        z.extend_from_slice(&(b.len() as u16).to_le_bytes());
+        z.extend_from_slice(&(!(b.len() as u16)).to_le_bytes());
+        z.extend_from_slice(b);
+    }
+    z.extend_from_slice(&adler32(&raw).to_be_bytes());
+    let mut out = vec![0x89, b'P', b'N', b'G', 0x0D, 0x0A, 0x1A, 0x0A];
+    let mut ihdr = Vec::new();
+    ihdr.extend_from_slice(&(w as u32).to_be_bytes());
+    ihdr.extend_from_slice(&(h as u32).to_be_bytes());
+    ihdr.extend_from_slice(&[8, ct, 0, 0, interlaced as u8]);
+    chunk(&mut out, b"IHDR", &ihdr);
+    chunk(&mut out, b"IDAT", &z);
+    chunk(&mut out, b"IEND", &[]);
+    out
 }
